@@ -89,8 +89,9 @@ theorem serve_abs {c : Conn} {b : Int} {out' : Rows} {ws : List AFrame} {gfb' : 
       resendRows ((Rows.range b sysMaxsize c.journal.out).map absRow) b ac acc =
         ({ ac with out := out'.map absRow }, acc ++ ws, gfb')) :
     (absConn c).serve b =
-      if gfb' < c.sess.nextOut then
-        ({ absConn c with out := out'.map absRow ++ [(gfb', none)] }, ws ++ [⟨gfb', .gapFill c.sess.nextOut⟩])
+      if gfb' < min (sysMaxsize + 1) c.sess.nextOut then
+        ({ absConn c with out := out'.map absRow ++ [(gfb', none)] },
+          ws ++ [⟨gfb', .gapFill (min (sysMaxsize + 1) c.sess.nextOut)⟩])
       else ({ absConn c with out := out'.map absRow }, ws) := by
   unfold AConn.serve
   have hcond : (decide (b < 1) || decide (b ≥ (absConn c).o)) = false := by
@@ -105,11 +106,11 @@ theorem serve_abs {c : Conn} {b : Int} {out' : Rows} {ws : List AFrame} {gfb' : 
   simp only [h1, h2]
   rw [hr2 _ [] rfl]
   simp only [List.nil_append]
-  by_cases hg : gfb' < c.sess.nextOut
-  · have : gfb' < (absConn c).o := hg
+  by_cases hg : gfb' < min (sysMaxsize + 1) c.sess.nextOut
+  · have : gfb' < min (sysMaxsize + 1) (absConn c).o := hg
     simp only [this, hg, if_true, AConn.pushAt, AKind.entry]
     rfl
-  · have : ¬ gfb' < (absConn c).o := hg
+  · have : ¬ gfb' < min (sysMaxsize + 1) (absConn c).o := hg
     simp only [this, hg, if_false]
 
 theorem processResend_serve {s : Side} {env : Env} {c : Conn} {f : Msg} {b : Int}
@@ -129,8 +130,9 @@ theorem processResend_serve {s : Side} {env : Env} {c : Conn} {f : Msg} {b : Int
   have hsock : c.sock = true := by
     rcases hst with hst | hst <;> exact sock_of_state hc (by rw [hst]; decide)
   have hL : LoopConn env (rewound c st b) := ⟨hst6, hst7, hsock, l1, l2, hl3⟩
-  have hloop := resendLoop_eval env c.sess.nextOut (Rows.range b sysMaxsize c.journal.out)
+  have hloop := resendLoop_eval env sysMaxsize c.sess.nextOut (Rows.range b sysMaxsize c.journal.out)
     (rewound c st b) b b hL (sorted_range g8.sorted _ _)
+    (fun r hr => (mem_range.mp hr).2.2)
     (fun r hr => ⟨(mem_range.mp hr).2.1, (g8.range r (mem_range.mp hr).1).2⟩)
     (fun r hr => by
       have := g8.good r (mem_range.mp hr).1
@@ -165,8 +167,10 @@ theorem processResend_serve {s : Side} {env : Env} {c : Conn} {f : Msg} {b : Int
       · exact ⟨(hnew' r hr).2.2.1, (hnew' r hr).2.2.2⟩
   have habs := serve_abs (c := c) (b := b) hb (fun ac acc hac => hr2 ac acc hac)
   have hL3 := loopConn_withOut hL out' os
-  have hgf := sendMsg_gapFill hL3 gfb' c.sess.nextOut hr3
-  have hfg := frameGood_build_gapFill c.sess env.stamp gfb' c.sess.nextOut l1 l2 hl3
+  obtain ⟨top, htop⟩ : ∃ t, t = min (sysMaxsize + 1) c.sess.nextOut := ⟨_, rfl⟩
+  have htop_le : top ≤ c.sess.nextOut := by rw [htop]; exact Int.min_le_right _ _
+  have hgf := sendMsg_gapFill hL3 gfb' top hr3
+  have hfg := frameGood_build_gapFill c.sess env.stamp gfb' top l1 l2 hl3
   rw [g1, g2] at hfg
   have hb3 : AllLt c.sess.nextOut out' := allLt_mono hr4 hr3
   have b3 : Rows.below c.sess.nextOut out' = out' := below_of_allLt _ _ hb3
@@ -174,18 +178,18 @@ theorem processResend_serve {s : Side} {env : Env} {c : Conn} {f : Msg} {b : Int
       buildFrame c.sess env.stamp m n := fun m n => buildFrame_sess _ _ _ _ _ rfl rfl
   have hsesseta : (⟨c.sess.sender, c.sess.target, c.sess.nextIn, c.sess.nextOut⟩ : Session) = c.sess := rfl
   -- the two possible tails
-  have tailGap : gfb' < c.sess.nextOut → ∀ effF : List Effect,
-      writesOf effF = writesOf eff ++ [buildFrame c.sess env.stamp (gapFillMsg gfb' c.sess.nextOut) gfb'] →
+  have tailGap : gfb' < top → ∀ effF : List Effect,
+      writesOf effF = writesOf eff ++ [buildFrame c.sess env.stamp (gapFillMsg gfb' top) gfb'] →
       deliveriesOf effF = [] →
       (absConn c).serve b = ({ absConn c with out :=
-          (out' ++ [(gfb', buildFrame c.sess env.stamp (gapFillMsg gfb' c.sess.nextOut) gfb')]).map absRow },
+          (out' ++ [(gfb', buildFrame c.sess env.stamp (gapFillMsg gfb' top) gfb')]).map absRow },
         (writesOf effF).map absFrame) ∧ deliveriesOf effF = [] ∧
       RowsGood s.name s.other.name c.sess.nextOut
-        (out' ++ [(gfb', buildFrame c.sess env.stamp (gapFillMsg gfb' c.sess.nextOut) gfb')]) ∧
+        (out' ++ [(gfb', buildFrame c.sess env.stamp (gapFillMsg gfb' top) gfb')]) ∧
       ∀ g ∈ writesOf effF, FrameGood s.name s.other.name g := by
     intro hg effF hw hd
     refine ⟨?_, hd, ?_, ?_⟩
-    · rw [habs, if_pos hg, hw]
+    · rw [habs, ← htop, if_pos hg, hw]
       simp [absRow_build_gapFill, absFrame_build_gapFill]
     · have hlt' : RowsGood s.name s.other.name gfb' out' :=
         { sorted := hgood'.sorted, range := fun r hr => ⟨(hgood'.range r hr).1, hr3 r hr⟩, good := hgood'.good }
@@ -196,50 +200,50 @@ theorem processResend_serve {s : Side} {env : Env} {c : Conn} {f : Msg} {b : Int
       rcases List.mem_append.mp hg' with hg' | hg'
       · exact hr7' g hg'
       · simp only [List.mem_singleton] at hg'; subst hg'; exact hfg
-  have tailNo : ¬ gfb' < c.sess.nextOut → ∀ effF : List Effect, writesOf effF = writesOf eff →
+  have tailNo : ¬ gfb' < top → ∀ effF : List Effect, writesOf effF = writesOf eff →
       deliveriesOf effF = [] →
       (absConn c).serve b = ({ absConn c with out := out'.map absRow }, (writesOf effF).map absFrame) ∧
       deliveriesOf effF = [] ∧ RowsGood s.name s.other.name c.sess.nextOut out' ∧
       ∀ g ∈ writesOf effF, FrameGood s.name s.other.name g := by
     intro hg effF hw hd
     refine ⟨?_, hd, hgood', ?_⟩
-    · rw [habs, if_neg hg, hw]
+    · rw [habs, ← htop, if_neg hg, hw]
     · intro g hg'; rw [hw] at hg'; exact hr7' g hg'
   unfold ServeRes
   rcases hst with hst | hst
   · have hstv : st = 12 := by rw [hstL, if_pos hst, hst]; rfl
     subst hstv
     simp [rewound, withOut, st_RESENDREQ_HANDLING, st_ACTIVE, b2, hsess] at hr1 hgf
-    by_cases hg : gfb' < c.sess.nextOut
-    · have b4 : Rows.below c.sess.nextOut (out' ++ [(gfb', buildFrame c.sess env.stamp (gapFillMsg gfb' c.sess.nextOut) gfb')])
-          = out' ++ [(gfb', buildFrame c.sess env.stamp (gapFillMsg gfb' c.sess.nextOut) gfb')] :=
-        below_of_allLt _ _ (allLt_append_last hr3 hg)
+    by_cases hg : gfb' < top
+    · have b4 : Rows.below c.sess.nextOut (out' ++ [(gfb', buildFrame c.sess env.stamp (gapFillMsg gfb' top) gfb')])
+          = out' ++ [(gfb', buildFrame c.sess env.stamp (gapFillMsg gfb' top) gfb')] :=
+        below_of_allLt _ _ (allLt_append_last hr3 (by omega))
       simp [processResend, M.bind_apply, hst, M.assert_apply, h2, get_of_get? h7, get_of_get? h16, M.int_apply,
         pyInt_pyStr, pyInt_zero, hb, st_RESENDREQ_AWAITING, st_RESENDREQ_HANDLING, stateSet_apply, setState, st_ACTIVE,
-        setSeqNum, hb0, ho0, Journal.recoverOut, Journal.setSeq, hr1, hr5, hg, hgf, sentAt, b2, hsess, b4, hsesseta]
+        setSeqNum, hb0, ho0, Journal.recoverOut, Journal.setSeq, hr1, hr5, ← htop, hg, hgf, sentAt, b2, hsess, b4, hsesseta]
       refine ⟨_, _, ⟨rfl, rfl⟩, rfl, rfl, rfl, rfl, rfl, rfl, ?_⟩
       exact tailGap hg _ (by simp [writesOf_append, writesOf]) (by simp [deliveriesOf_append, deliveriesOf, hr6])
     · simp [processResend, M.bind_apply, hst, M.assert_apply, h2, get_of_get? h7, get_of_get? h16, M.int_apply,
         pyInt_pyStr, pyInt_zero, hb, st_RESENDREQ_AWAITING, st_RESENDREQ_HANDLING, stateSet_apply, setState, st_ACTIVE,
-        setSeqNum, hb0, ho0, Journal.recoverOut, Journal.setSeq, hr1, hr5, hg, sentAt, b2, hsess, b3, hsesseta]
+        setSeqNum, hb0, ho0, Journal.recoverOut, Journal.setSeq, hr1, hr5, ← htop, hg, sentAt, b2, hsess, b3, hsesseta]
       refine ⟨_, _, ⟨rfl, rfl⟩, rfl, rfl, rfl, rfl, rfl, rfl, ?_⟩
       exact tailNo hg _ rfl hr6
   · have hne : c.state ≠ st_RESENDREQ_AWAITING := by rw [hst]; decide
     have hstv : st = 10 := by rw [hstL, if_neg hne]; rfl
     subst hstv
     simp [rewound, withOut, st_RESENDREQ_HANDLING, st_ACTIVE, b2, hsess] at hr1 hgf
-    by_cases hg : gfb' < c.sess.nextOut
-    · have b4 : Rows.below c.sess.nextOut (out' ++ [(gfb', buildFrame c.sess env.stamp (gapFillMsg gfb' c.sess.nextOut) gfb')])
-          = out' ++ [(gfb', buildFrame c.sess env.stamp (gapFillMsg gfb' c.sess.nextOut) gfb')] :=
-        below_of_allLt _ _ (allLt_append_last hr3 hg)
+    by_cases hg : gfb' < top
+    · have b4 : Rows.below c.sess.nextOut (out' ++ [(gfb', buildFrame c.sess env.stamp (gapFillMsg gfb' top) gfb')])
+          = out' ++ [(gfb', buildFrame c.sess env.stamp (gapFillMsg gfb' top) gfb')] :=
+        below_of_allLt _ _ (allLt_append_last hr3 (by omega))
       simp [processResend, M.bind_apply, hst, M.assert_apply, h2, get_of_get? h7, get_of_get? h16, M.int_apply,
         pyInt_pyStr, pyInt_zero, hb, st_RESENDREQ_AWAITING, st_RESENDREQ_HANDLING, stateSet_apply, setState, st_ACTIVE,
-        setSeqNum, hb0, ho0, Journal.recoverOut, Journal.setSeq, hr1, hr5, hg, hgf, sentAt, b2, hsess, b4, hsesseta]
+        setSeqNum, hb0, ho0, Journal.recoverOut, Journal.setSeq, hr1, hr5, ← htop, hg, hgf, sentAt, b2, hsess, b4, hsesseta]
       refine ⟨_, _, ⟨rfl, rfl⟩, rfl, rfl, rfl, rfl, rfl, rfl, ?_⟩
       exact tailGap hg _ (by simp [writesOf_append, writesOf]) (by simp [deliveriesOf_append, deliveriesOf, hr6])
     · simp [processResend, M.bind_apply, hst, M.assert_apply, h2, get_of_get? h7, get_of_get? h16, M.int_apply,
         pyInt_pyStr, pyInt_zero, hb, st_RESENDREQ_AWAITING, st_RESENDREQ_HANDLING, stateSet_apply, setState, st_ACTIVE,
-        setSeqNum, hb0, ho0, Journal.recoverOut, Journal.setSeq, hr1, hr5, hg, sentAt, b2, hsess, b3, hsesseta]
+        setSeqNum, hb0, ho0, Journal.recoverOut, Journal.setSeq, hr1, hr5, ← htop, hg, sentAt, b2, hsess, b3, hsesseta]
       refine ⟨_, _, ⟨rfl, rfl⟩, rfl, rfl, rfl, rfl, rfl, rfl, ?_⟩
       exact tailNo hg _ (by simp [writesOf_append, writesOf]) (by simp [deliveriesOf_append, deliveriesOf, hr6])
 
